@@ -66,6 +66,9 @@ def strategy(tier):
         "tasks": st.lists(task, min_size=1, max_size=12),
         "frames": st.lists(frame, min_size=1, max_size=8),
         "unknown": st.lists(st.integers(0, 10), max_size=2),
+        # frame indexes the master's random generator draws first: small, so
+        # that it draws indexes that are still in use
+        "indexes": st.lists(st.integers(0, 2), max_size=12),
     })
 
 
@@ -137,7 +140,11 @@ def run_case(case):
     real_randint = ethercat.randint
     state = {"index": 2000}
 
+    drawn = list(case.get("indexes", []))
+
     def my_randint(a, b):
+        if drawn:
+            return 5000 + drawn.pop(0)
         state["index"] += 1
         return state["index"]
 
